@@ -140,7 +140,11 @@ func (s *Solver) check1(asserts []*Term, want []*Term, useReset bool, timeoutMs 
 		fmt.Fprintf(&sb, "(set-option :timeout %d)\n", timeoutMs)
 	}
 	endScope := func() {
-		if !useReset {
+		if useReset {
+			// leave nothing behind: the next incremental query must not inherit
+			// this query's declarations and assertions
+			s.send("(reset)\n")
+		} else {
 			s.send("(pop 1)\n")
 		}
 	}
